@@ -47,10 +47,10 @@ def groups():
             rh('hashb.rehash.misc.m%d.%s' % (m1, FN[f1]), m1, [f1], 3, 5, 1, 'then cstl_hash_rehash (forced) / cstl_hash_shrink_to_fit / cstl_hash_swap with a second table')
         for v in (1, 2, 3, 4, 5):
             rh('hashb.rehash.full.m%d.v%d' % (m1, v), m1, [0, 1], v, v, 4, 'then ' + names[v], tier='thorough', timeout=1800)
-    for lo, hi in ((0, 4), (5, 9), (10, 12)):
+    for lo, hi in ((0, 4), (5, 9), (10, 14)):
         b('hashb.enum.s%d_%d' % (lo, hi), ['C04'] + (['C03'] if lo >= 10 else []), 'h_b_enum', ['-DVF_B=3', '-DVF_ST_LO=%d' % lo, '-DVF_ST_HI=%d' % hi] + (['-DVF_MAXB=6'] if lo >= 10 else []),
-          'cstl_hash_foreach_const / cstl_hash_foreach / cstl_hash_clear in table states %d..%d of 13 (0 no rehash pending; 1-3, 9 grow pending with nothing / with '
-          'elements already relocated into the new buckets; 4-6, 8 shrink pending, partly swept; 7 hash function changed; 8, 9 after insert / erase; 10-12 a second resize requested while the first is pending): every live '
+          'cstl_hash_foreach_const / cstl_hash_foreach / cstl_hash_clear in table states %d..%d of 15 (0 no rehash pending; 1-3, 9 grow pending with nothing / with '
+          'elements already relocated into the new buckets; 4-6, 8 shrink pending, partly swept; 7 hash function changed; 8, 9 after insert / erase; 10-12 a second resize requested while the first is pending; 13 shrink_to_fit while a grow is pending; 14 more dirty buckets than elements): every live '
           'element visited exactly once, nothing else visited, early stop at every visit index returns the callback\'s value, foreach_const leaves the table '
           'untouched, foreach completes the rehash and tolerates a callback that erases and poisons the visited element, clear hands every live element to a '
           'poisoning callback once and leaves a table equal to a freshly initialised one that works again after resize(2, NULL) + insert + find' % (lo, hi), unwind=12)
